@@ -45,8 +45,45 @@ def tokenizeGo : Nat → Tokenizer → List Tok → Option (List Tok × Bytes)
 def htmlTokenize? (bs : Bytes) : Option (List Tok × Bytes) :=
   tokenizeGo (bs.length + 2) (Tokenizer.new bs.toArray) []
 
+/-- `Tokenizer::new(buffer)` run to the `ErrorToken` (append_child / prepend_child) -/
+def htmlPlain (bs : Bytes) : List Tok × Bytes := (htmlTokenize? bs).getD ([], bs)
+
+/-- The loop of `HtmlFilterBodyAction::filter` since fe7eac6, from any tokenizer state: before each `next()` the
+context `raw_tag()` is read, after it `err().is_some()`.  Same failure exits as `tokenizeGo`. -/
+def tokenizeGoX : Nat → Tokenizer → List TokX → Option (List TokX × Bytes × Bytes)
+  | 0, _, _ => none
+  | n + 1, t, acc =>
+    let c := t.rawTag
+    let t1 := t.next
+    if t1.panic || t1.hang || t1.utf8Err then none
+    else if t1.token == .error then
+      match t1.raw, t1.buffered with
+      | some r, some b => some (acc.reverse, r ++ b, c)
+      | _, _ => none
+    else
+      match t1.raw with
+      | none => none
+      | some r =>
+        if Tokenizer.isTagLike t1.token then
+          match t1.tagName with
+          | (.ok (some nm, _), t2) =>
+            tokenizeGoX n t2 ({ tok := { kind := kindOf t1.token, raw := r, name := nm }, cut := t1.err, ctx := c } :: acc)
+          | (.ok (none, _), t2) =>
+            tokenizeGoX n t2 ({ tok := { kind := kindOf t1.token, raw := r }, cut := t1.err, ctx := c } :: acc)
+          | _ => none
+        else tokenizeGoX n t1 ({ tok := { kind := kindOf t1.token, raw := r }, cut := t1.err, ctx := c } :: acc)
+
+/-- `Tokenizer::new_fragment(buffer, context)` run to the `ErrorToken`; the context is already lower case (it comes from
+`raw_tag()`) -/
+def htmlStream? (ctx bs : Bytes) : Option (List TokX × Bytes × Bytes) :=
+  tokenizeGoX (bs.length + 2) (Tokenizer.newFragment bs.toArray ctx) []
+
+def htmlStream (ctx bs : Bytes) : List TokX × Bytes × Bytes := (htmlStream? ctx bs).getD ([], bs, ctx)
+
 /-- the tokenizer handed to the filter model by the drivers -/
-def htmlTokenize : Tokenize := fun bs => (htmlTokenize? bs).getD ([], bs)
+def htmlTokenize : Tokenize := { plain := htmlPlain, stream := htmlStream }
+
+@[simp] theorem htmlTokenize_apply (bs : Bytes) : htmlTokenize bs = (htmlTokenize? bs).getD ([], bs) := rfl
 
 /-! ### stand-in for `scraper` (drivers only; the theorems hold for every `evaluate`) -/
 
